@@ -59,7 +59,10 @@ impl Report {
 
     #[inline]
     pub fn eval(&mut self) {
-        self.evaluations += 1
+        self.evaluations += 1;
+        if self.evaluations & 0xfff == 0 {
+            crate::mon::tick();
+        }
     }
 
     #[inline]
@@ -242,7 +245,13 @@ impl Args {
     /// Does index `i` belong to this shard?
     #[inline]
     pub fn mine(&self, i: u64) -> bool {
-        i % self.nshards == self.shard
+        let m = i % self.nshards == self.shard;
+        // every 1024th index of this shard is a heartbeat: loops that tick on `i & mask == 0`
+        // after this filter would otherwise only ever tick in shard 0
+        if m && (i / self.nshards) & 0x3ff == 0 {
+            crate::mon::tick();
+        }
+        m
     }
 }
 
